@@ -93,11 +93,12 @@ func (r *recorder) snapshot() []string {
 }
 
 type harness struct {
-	srv     *jsonrpc.Server
-	http    *jsonrpc.HTTP
-	rec     *recorder
-	lastOut []byte // output of the last checkOne (single-threaded use only)
-	mdl     *model // reference model that knows the methods registered later on this server (nil: refModel)
+	srv       *jsonrpc.Server
+	http      *jsonrpc.HTTP
+	rec       *recorder
+	lastOut   []byte // output of the last checkOne (single-threaded use only)
+	lastReads []int  // sizes of the reads the server was served in the last checkDelivered (segmented deliveries)
+	mdl       *model // reference model that knows the methods registered later on this server (nil: refModel)
 }
 
 // Go type of every parameter kind of the model.
@@ -238,7 +239,10 @@ func newHarness(poolSize int, yield bool) *harness {
 				return map[string]any{"a": a, "v": v}, nil
 			}},
 		{Name: "valMapVal", Params: []jsonrpc.Parameter{P("m", false)},
-			Handler: func(m map[string]valStruct) (map[string]valStruct, *jsonrpc.Error) { r.add("valMapVal", m); return m, nil }},
+			Handler: func(m map[string]valStruct) (map[string]valStruct, *jsonrpc.Error) {
+				r.add("valMapVal", m)
+				return m, nil
+			}},
 		{Name: "req", Params: []jsonrpc.Parameter{P("r", false)},
 			Handler: func(q reqStruct) (reqStruct, *jsonrpc.Error) { r.add("req", q); return q, nil }},
 	}
@@ -297,33 +301,95 @@ type callResult struct {
 	panicked string
 	hung     bool
 	extra    string // transport-level oracle failure
+	reads    []int  // sizes of the Reads the server was served (segmented deliveries only)
+}
+
+// delivery is the part of an input that says HOW its bytes reach the server: the sizes of the successive segments
+// (whatever lies beyond their sum arrives as one last segment). The property quantifies over the bytes received; how
+// they are split into reads must not matter.
+type delivery struct {
+	segs        []int
+	eofWithLast bool // the Read that hands out the last bytes also returns io.EOF (both conventions are legal io.Readers)
+}
+
+// segReader serves exactly one segment per Read, however large the caller's buffer is (the way a socket or a chunked
+// HTTP body does); a segment larger than the caller's buffer is continued by the next Read.
+type segReader struct {
+	data        []byte
+	segs        []int
+	eofWithLast bool
+	reads       []int
+}
+
+func newSegReader(in []byte, dl *delivery) *segReader {
+	return &segReader{data: in, segs: append([]int{}, dl.segs...), eofWithLast: dl.eofWithLast}
+}
+
+func (r *segReader) Read(p []byte) (int, error) {
+	if len(r.data) == 0 {
+		return 0, io.EOF
+	}
+	if len(p) == 0 {
+		return 0, nil
+	}
+	n := len(r.data)
+	if len(r.segs) > 0 {
+		n = min(n, r.segs[0])
+	}
+	n = min(n, len(p))
+	copy(p, r.data[:n])
+	r.data = r.data[n:]
+	if len(r.segs) > 0 {
+		if r.segs[0] -= n; r.segs[0] <= 0 {
+			r.segs = r.segs[1:]
+		}
+	}
+	r.reads = append(r.reads, n)
+	if len(r.data) == 0 && r.eofWithLast {
+		return n, io.EOF
+	}
+	return n, nil
 }
 
 const hangTimeout = 60 * time.Second
 
-// call sends the bytes through one transport; panics and hangs are reported, not propagated.
-func (h *harness) call(tr transport, in []byte) callResult {
+// call sends the bytes in one piece through one transport; panics and hangs are reported, not propagated.
+func (h *harness) call(tr transport, in []byte) callResult { return h.callDelivered(tr, in, nil) }
+
+// callDelivered sends the bytes through one transport, split into reads as dl says (nil: everything in one piece).
+// The HTTP transports get the segmented reader as the request body (a chunking body: http.MaxBytesReader and the
+// NopCloser around it pass every Read through unchanged).
+func (h *harness) callDelivered(tr transport, in []byte, dl *delivery) callResult {
 	ch := make(chan callResult, 1)
 	go func() {
 		var res callResult
+		var src io.Reader = bytes.NewReader(in)
+		var seg *segReader
+		if dl != nil && tr != trOneByte {
+			seg = newSegReader(in, dl)
+			src = seg
+		}
 		defer func() {
 			if p := recover(); p != nil {
 				res.panicked = fmt.Sprintf("%v\n%s", p, debug.Stack())
+			}
+			if seg != nil {
+				res.reads = seg.reads
 			}
 			ch <- res
 		}()
 		ctx := context.Background()
 		switch tr {
 		case trReader:
-			res.out, res.hdr, res.err = h.srv.HandleReader(ctx, bytes.NewReader(in))
+			res.out, res.hdr, res.err = h.srv.HandleReader(ctx, src)
 		case trOneByte:
 			res.out, res.hdr, res.err = h.srv.HandleReader(ctx, iotest.OneByteReader(bytes.NewReader(in)))
 		case trReadWriter:
-			rw := &rwBuf{Reader: bytes.NewReader(in)}
+			rw := &rwBuf{Reader: src}
 			res.err = h.srv.HandleReadWriter(ctx, 0, rw)
 			res.out = rw.w.Bytes()
 		case trHTTP, trHTTPGzip:
-			req := httptest.NewRequest(http.MethodPost, "/", bytes.NewReader(in))
+			req := httptest.NewRequest(http.MethodPost, "/", src)
 			if tr == trHTTPGzip {
 				req.Header.Set("Accept-Encoding", "gzip")
 			}
